@@ -1017,6 +1017,8 @@ fn main() {
             jobs.shard_size = 1000;
             w_all_wide!(reg_gen!(jobs, "to_base", 3000, strat_to_base, body_to_base;));
             w_all_wide!(reg_gen!(jobs, "from_base", 4000, strat_from_base, body_from_base;));
+            reg_gen!(jobs, "to_base", 200, strat_to_base, body_to_base; [4160]);
+            reg_gen!(jobs, "from_base", 200, strat_from_base, body_from_base; [4160]);
             reg_gen!(jobs, "fmt", 500, strat_fmt, body_fmt; [0, 1, 2, 3, 7, 8, 16, 60, 63, 64, 65, 96, 127, 128, 129, 190, 192, 255, 256, 257, 320, 384, 512, 1024]);
             w_all_wide!(reg_gen!(jobs, "parse", 6000, strat_parse, body_parse;));
             w_all!(reg_gen!(jobs, "from_str", 3000, strat_from_str, body_from_str;));
